@@ -65,6 +65,8 @@ var xPaths = []string{
 	"results.q1.input", "results.q1.extra", "results.q1.extra.n", "results[\"q1\"].value", "input", "input.text", "input.attachments", "nums", "nums.1", "nums[\"2\"]", "nums[1]", "nums[2]",
 	"dflt", "dflt.x", "fn", "words", "words[2]", "dt", "d", "t", "numtext", "empty", "nul", "big", "neg", "flag", "webhook", "webhook.a", "webhook.b.c[2].d", "webhook[\"a\"]",
 	"mixedkey", "mixedkey.Inner", "mixedkey.inner", "été", "missing.x", "obj.missing", "obj[\"missing\"]", "arr[\"x\"]", "obj[1]",
+	// keys of one object that differ only in case (a JSON payload may have them; an exact match wins, see buildContext)
+	"cased.Status", "cased.status", "cased.STATUS", "cased.ID", "cased.Id", "cased.id", "cased[\"Status\"]", "cased.Nested.Key", "cased.Nested.key", "cased.nested.KEY", "payload.Status", "payload.status", "payload.items[0].ID", "payload.items[0].id",
 }
 
 // letters the lexer knows and that have a distinct upper-case form it also knows
@@ -662,6 +664,14 @@ func buildContext(r *fw.Rand) *types.XObject {
 	}
 	m["webhook"] = types.JSONToXValue([]byte(fw.Pick(r, []string{`{"a":1,"b":{"c":[1,2,{"d":null}]}}`, `{"a":"x","b":{"c":[true,"two",{"d":3.5}]}}`, `[1,2,3]`, `{"a":{"k":"v"},"__default__":"dd"}`})))
 	m["mixedkey"] = types.NewXObject(map[string]types.XValue{"Inner": types.NewXText(fw.Pick(r, []string{"in", "IN", ""}))})
+	// case-variant keys: the evaluator takes the exactly matching key first, so every spelling has one meaning
+	m["cased"] = types.NewXObject(map[string]types.XValue{
+		"Status": types.NewXText("Upper"), "status": types.NewXText(fw.Pick(r, []string{"lower", "", "Upper"})),
+		"ID": types.RequireXNumberFromString("1"), "Id": types.RequireXNumberFromString("2"), "id": types.RequireXNumberFromString(fw.Pick(r, []string{"3", "1"})),
+		"Nested": types.NewXObject(map[string]types.XValue{"Key": types.NewXText("K"), "key": types.NewXText("k")}),
+		"nested": types.NewXObject(map[string]types.XValue{"KEY": types.NewXText("KK")}),
+	})
+	m["payload"] = types.JSONToXValue([]byte(`{"Status":"OK","status":200,"items":[{"ID":"A1","id":7}]}`))
 	m["été"] = types.NewXText(fw.Pick(r, []string{"summer", "", "1"}))
 	return types.NewXObject(m)
 }
